@@ -907,6 +907,10 @@ class Ev:
                 r = same(a, b)  # enum members are singletons
             elif isinstance(a, ClassRef) and isinstance(b, ClassRef):
                 r = a.cls is b.cls
+            elif isinstance(a, Builtin) and isinstance(b, Builtin):
+                if "number" in (a.name, b.name) and {a.name, b.name} & {"int", "float"}:
+                    raise Undecided("whether a number is an int or a float")
+                r = a.name == b.name
             else:
                 r = a is b
             return r if isinstance(op, ast.Is) else not r
@@ -1315,6 +1319,8 @@ class Ev:
                 for i, t in enumerate(target.elts):
                     self.assign(t, Ctor("%s[%d]" % (v.name, i), v.args), env, mod)
                 return
+            if isinstance(v, Obj) and v.cls is not None and self.repo.find_method(v.cls, "__iter__")[1] is not None:
+                v = ListV(self.iterate(v, target))  # an object that can be iterated is unpacked through its __iter__
             if not isinstance(v, ListV):
                 raise AnalysisError("unpacking %r at line %d" % (v, target.lineno))
             stars = [i for i, t in enumerate(target.elts) if isinstance(t, ast.Starred)]
@@ -2044,6 +2050,26 @@ class Ev:
                 return ClassRef(args[0].cls)
             if isinstance(args[0], NoneT):
                 return Builtin("NoneType")
+            a0 = args[0]
+            if isinstance(a0, bool):
+                return Builtin("bool")
+            if isinstance(a0, (int, float)):
+                return Builtin(type(a0).__name__)
+            if isinstance(a0, (Sym, Term)) and is_numeric(a0):
+                # a number: its class is int or float (no class of the repository)
+                return Builtin({"int": "int", "float": "float"}.get(getattr(a0, "kind", None), "number"))
+            if isinstance(a0, Str):
+                return Builtin("str")
+            if isinstance(a0, DictV):
+                return Builtin("dict")
+            if isinstance(a0, TupV):
+                return Builtin("tuple")
+            if isinstance(a0, SetV):
+                return Builtin("set")
+            if type(a0) is ListV:
+                return Builtin("list")
+            if isinstance(a0, EnumMember):
+                return ClassRef(a0.cls)
             raise AnalysisError("type(%r) at line %d" % (args[0], e.lineno))
         if name == "next" and args:
             if isinstance(args[0], IterV):
